@@ -290,10 +290,27 @@ def check_memo_soundness(repo, chk, rule="M-sound"):
         for df in defs:
             inner = [x for x in ast.walk(df.node) if isinstance(x, ast.FunctionDef) and x is not df.node]
             slot_names = set()
+            # locals that hold the instance dictionary: d = vars(self) / d = self.__dict__
+            dict_aliases = set()
+            for w in inner:
+                for st in ast.walk(w):
+                    if isinstance(st, ast.Assign) and len(st.targets) == 1 and isinstance(st.targets[0], ast.Name):
+                        v = st.value
+                        if (isinstance(v, ast.Call) and isinstance(v.func, ast.Name) and v.func.id == "vars") or (isinstance(v, ast.Attribute) and v.attr == "__dict__"):
+                            dict_aliases.add(st.targets[0].id)
             for w in inner:
                 for c in ast.walk(w):
                     if isinstance(c, ast.Call) and isinstance(c.func, ast.Name) and c.func.id in ("setattr", "hasattr", "getattr") and len(c.args) >= 2:
                         slot_names.add(norm_text(c.args[1]))
+                    # the instance dictionary used directly: vars(self)[slot] / self.__dict__[slot] / slot in vars(self)
+                    if isinstance(c, ast.Subscript) and not isinstance(c.slice, ast.Slice):
+                        base = c.value
+                        if (isinstance(base, ast.Call) and isinstance(base.func, ast.Name) and base.func.id == "vars") or (isinstance(base, ast.Attribute) and base.attr == "__dict__") or (isinstance(base, ast.Name) and base.id in dict_aliases):
+                            slot_names.add(norm_text(c.slice))
+                    if isinstance(c, ast.Call) and isinstance(c.func, ast.Attribute) and c.func.attr in ("get", "setdefault", "pop") and c.args:
+                        base = c.func.value
+                        if (isinstance(base, ast.Call) and isinstance(base.func, ast.Name) and base.func.id == "vars") or (isinstance(base, ast.Attribute) and base.attr == "__dict__") or (isinstance(base, ast.Name) and base.id in dict_aliases):
+                            slot_names.add(norm_text(c.args[0]))
             wrapper_locals = {a.arg for w in inner for a in w.args.args + w.args.kwonlyargs + ([w.args.vararg] if w.args.vararg else []) + ([w.args.kwarg] if w.args.kwarg else [])}
             wrapper_locals |= {t.id for w in inner for st in ast.walk(w) if isinstance(st, ast.Assign) for t in st.targets if isinstance(t, ast.Name)}
             if not slot_names:
